@@ -412,16 +412,17 @@ def check(run):
         res = run.tlc("MC_Lookup", cfg, name=name, workers=2, timeout=600, count=False)
         if res.violated != [inv]:
             return name, None, "witness %s not reached (violated=%s)" % (name, res.violated)
-        ce = res.counterexample()
-        mm = replay_behaviour([("ce", st) for _, st in ce], nd, size, fsc, moddir, base=run.scratch)
-        return name, ce, mm
+        return name, res.counterexample(), w
     import concurrent.futures as cf
-    with cf.ThreadPoolExecutor(max_workers=6) as ex:
+    with cf.ThreadPoolExecutor(max_workers=6) as ex:      # TLC runs in parallel ...
         outs = list(ex.map(one_witness, wit))
     nw = 0
-    for name, ce, mm in outs:
+    for name, ce, w in outs:
         if ce is None:
-            raise MachineryError(mm)
+            raise MachineryError(w)
+        # ... the replays one at a time: a World interposes on module attributes of mako (clock, Template class)
+        _, _, _, nd, _, size, fsc, moddir, _ = w
+        mm = replay_behaviour([("ce", st) for _, st in ce], nd, size, fsc, moddir, base=run.scratch)
         nw += 1
         run.transitions += len(ce)
         if mm:
